@@ -284,8 +284,12 @@ class Report:
         }
         if self.errors:
             ev["coverage"]["checker_errors"] = self.errors
-        os.makedirs(os.path.join(VERIF, "evidence"), exist_ok=True)
-        with open(os.path.join(VERIF, "evidence", self.prop + ".json"), "w") as f:
+        # runs against a scratch copy (GSTOOLS_REPO) must not overwrite the evidence of the real tree
+        evdir = os.path.join(VERIF, "evidence") if (os.path.realpath(REPO) == "/repo"
+                                                    and not getattr(self, "partial", False)) else \
+            os.path.join(VERIF, "evidence", ".scratch")
+        os.makedirs(evdir, exist_ok=True)
+        with open(os.path.join(evdir, self.prop + ".json"), "w") as f:
             json.dump(ev, f, indent=1)
         print("%s tier=%s obligations=%d discharged=%d bounded=%d known=%d undecided=%d "
               "violations=%d errors=%d wall=%.1fs"
